@@ -636,7 +636,7 @@ static void wc_side(const char *key, const SideInfoIndices *ix, int nb, int orde
 static int exec_wc(const wc_cfg *c, int npk, int from)
 {
    static const int bws[3] = {OPUS_BANDWIDTH_NARROWBAND, OPUS_BANDWIDTH_MEDIUMBAND, OPUS_BANDWIDTH_WIDEBAND};
-   int err, N, p, i, ch, cfga[WC_NCFG]; long t = 0; double phase = 0.0, ph2 = 0.0;
+   int err, N, p, i, ch, cfga[WC_NCFG]; long t = 0; double phase = 0.0, ph2 = 0.0; opus_uint32 erng = 0, drng = 0;
    opus_int16 *pcm, *out; unsigned char pkt[1500]; OpusEncoder *enc; OpusDecoder *dec; silk_encoder *se; silk_decoder_state *sd; hx_rng r;
    if ((c->fs != 8000 && c->fs != 12000 && c->fs != 16000 && c->fs != 24000 && c->fs != 48000) || (c->ch != 1 && c->ch != 2) || c->bw < 0 || c->bw > 2) return 0;
    if ((c->ms != 20 && c->ms != 40 && c->ms != 60 && c->ms != 10) || c->br < 4000 || c->br > 80000 || c->cx < 0 || c->cx > 10 || c->sig < 0 || c->sig > 2) return 0;
@@ -675,11 +675,17 @@ static int exec_wc(const wc_cfg *c, int npk, int from)
       n = opus_decode(dec, pkt, len, out, N, 0);
       if (n != N) { js_open("wc_err"); js_arr_i("cfg", cfga, WC_NCFG); js_int("pk", p); js_int("dec", n); js_close(); break; }
       if (p < from || len <= 2) continue;                                  /* a TOC-only packet carries no SILK frame */
+      opus_encoder_ctl(enc, OPUS_GET_FINAL_RANGE(&erng)); opus_decoder_ctl(dec, OPUS_GET_FINAL_RANGE(&drng));
       for (ch = 0; ch < se->nChannelsInternal && ch < 2; ch++) {
          const silk_encoder_state *ec = &se->state_Fxx[ch].sCmn; const silk_decoder_state *dc = &sd[ch];
          int nfp = ec->nFramesPerPacket, coded = 1;
          if (ch == 1 && nfp >= 1 && se->sStereo.mid_only_flags[nfp - 1]) coded = 0;          /* side channel not sent for the last frame */
          js_open("wc"); js_arr_i("cfg", cfga, WC_NCFG); js_int("pk", p); js_int("len", len); js_int("c", ch); js_int("nch", se->nChannelsInternal);
+         { int er[2], dr[2]; er[0] = (int)(erng >> 16); er[1] = (int)(erng & 0xFFFF); dr[0] = (int)(drng >> 16); dr[1] = (int)(drng & 0xFFFF); js_arr_i("er", er, 2); js_arr_i("dr", dr, 2); }
+         {  /* what the packet carries: a TOC-only packet (the encoder gave the frame up, or DTX) padded to the CBR size has an empty frame */
+            const unsigned char *fr[48]; opus_int16 sz[48]; unsigned char toc; int nfr = opus_packet_parse(pkt, len, &toc, fr, sz, NULL);
+            js_int("toc", pkt[0]); js_int("nfr", nfr); js_int("fsz", nfr >= 1 ? sz[0] : -1);
+         }
          js_int("nf", nfp); js_int("coded", coded); js_int("efs", ec->fs_kHz); js_int("dfs", dc->fs_kHz); js_int("n", ec->nb_subfr); js_int("dn", dc->nb_subfr);
          wc_side("e", &ec->indices, ec->nb_subfr, ec->predictLPCOrder, ec->prevLag, se->state_Fxx[ch].sShape.LastGainIndex, ec->prev_NLSFq_Q15);
          wc_side("d", &dc->indices, ec->nb_subfr, ec->predictLPCOrder, dc->lagPrev, dc->LastGainIndex, dc->prevNLSF_Q15);
